@@ -13,10 +13,12 @@ pub const COMMON_ASSUMPTIONS: &[&str] = &[
     "dependencies (dcbor, bc-components, bc-crypto) execute natively and unmodified except Digest's Ord/PartialOrd, which call the order oracle",
 ];
 
+pub mod c01;
 pub mod c07;
 
 pub fn all() -> Vec<Prop> {
     vec![
+        c01::prop(),
         c07::prop(),
     ]
 }
